@@ -1,7 +1,7 @@
 (* C08 — cumulative operations are per-group prefix reductions. *)
 From Coq Require Import List ZArith Bool.
 From GL Require Import Lib.Arr Lib.Keyed Model.Dom Model.Scalar Model.Cumulative
-  Spec.Defs Proofs.ReduceSeries Proofs.RowGeneric Proofs.CumProofs Proofs.CumSpec Proofs.CumArray Spec.RowSpec Proofs.GenTie Gen.ScalarFuncsGen.
+  Spec.Defs Proofs.ReduceSeries Proofs.RowGeneric Proofs.CumProofs Proofs.CumSpec Proofs.CumArray Spec.RowSpec Proofs.GenTie Proofs.TieReducerTables Gen.ScalarFuncsGen.
 Import ListNotations.
 Open Scope Z_scope.
 
